@@ -51,7 +51,7 @@ def classify(op, cell):
         return "air-fmp-unconstrained"
     if cell == "b1'":
         return "air-b1-unconstrained"
-    if op in ("repeat", "dyn") and cell.startswith("s"):
+    if op == "dyn" and cell.startswith("s"):
         return "air-repeat-dyn-stack-unconstrained"
     if op in ("mstream", "pipe") and re.match(r"s(8|9|1\d)'", cell):
         return "air-mstream-pipe-copy-unconstrained"
@@ -90,6 +90,24 @@ def run(rep, tier, rng):
     progs = [gen_exec.gen_ops_case(r.fork("o%d" % i), 60, ) for i in range(n)] + \
             [gen_exec.gen_prog_case(r.fork("p%d" % i), False) for i in range(n // 2)]
     progs = [c.replace(" | T 0 ", " | T 0 ") for c in progs]
+    # memory traffic in several execution contexts, bitwise and hasher work: rows for the chiplet faults
+    from props import c03, c07
+    for i in range(max(6, n // 8)):
+        rr = r.fork("m%d" % i)
+        g = c07.CtxGen(rr, ops=c03.ctx_mem_ops, always_return_clean=True)
+        progs.append(gen_exec.case_line(2**32 - 1, gen_exec.gen_stack(rr), [gen_exec.val(rr) for _ in range(64)], g.program()))
+    for i in range(max(4, n // 16)):
+        rr = r.fork("b%d" % i)
+        ops = []
+        for _ in range(3 + rr.below(6)):
+            k = rr.below(3)
+            if k == 0:
+                ops += ["push:%d" % rr.below(2**32), "push:%d" % rr.below(2**32), rr.choice(["u32and", "u32xor"]), "drop"]
+            elif k == 1:
+                ops += ["hperm"]
+            else:
+                ops += ["push:%d" % gen_exec.val(rr), "push:%d" % rr.choice([0, 3, 2**31]), "mstore", "drop", "push:%d" % rr.choice([0, 3, 7]), "mload", "drop"]
+        progs.append(gen_exec.case_line(2**32 - 1, gen_exec.gen_stack(rr), [], "T 0 " + gen_exec.span(ops)))
     out = common.run_impl("perturb", progs, tag="c04f")
     streams = common.run_impl("stream", progs, tag="c04s")
     evals = 0
@@ -115,6 +133,18 @@ def run(rep, tier, rng):
                            "class": cls or "air-undetected-%s-%s" % (op, cell)})
             if cls is None:
                 found = True
+        # faults inside the chiplets (memory: stale / foreign / re-initialised reads, invalid selectors, ordering
+        # columns; bitwise: every column; hasher: state inside a permutation)
+        dist["chiplet-faults"] += int(f.get("chip_tried", 0))
+        for u in f.get("chip_undetected", "").split(";"):
+            if not u:
+                continue
+            row, chip, what = u.split(":", 2)
+            dist["chip-undetected:%s:%s" % (chip, what.split("[")[0])] += 1
+            rep.violation("a fault inside the %s chiplet is accepted by every transition constraint: %s (row %s)" % (chip, what, row),
+                          {"kind": "search", "family": "perturb", "case": c, "chiplet": chip, "fault": what, "row": int(row),
+                           "class": "air-chiplet-%s-%s" % (chip, what.split("[")[0])})
+            found = True
     for (op, cell, cls), v in seen.items():
         dist["undetected:" + (cls or "NEW:%s:%s" % (op, cell))] += v
     base.report_proof_failure(rep, "C04", pr, found)
@@ -137,7 +167,9 @@ def replay(rep, path):
     a = common.run_impl(fam, [d["case"]], tag="replay")[0]
     print("impl : " + a[:1500])
     bad = False
-    if fam == "perturb":
+    if fam == "perturb" and "chiplet" in d:
+        bad = ("%d:%s:%s" % (d["row"], d["chiplet"], d["fault"])) in a
+    elif fam == "perturb":
         bad = ("%d:%s:%s:" % (d["row"], d["op"], d["cell"])) in a
     else:
         b = common.run_model(fam, [d["case"]], tag="replay")[0]
